@@ -23,7 +23,7 @@ CHECKS = {
    note="trusted: simnet's model of TCP errors (OpError/SyscallError shapes), the synctest fake clock, the seamgen overlay; interleavings are sampled, not enumerated",
    tech=TECH + " (fault enumeration + seeded schedule search over parked I/O operations)"),
  "C06": dict(cat="exploration", ref="5 C06",
-   text="generated policies (blocklists, allowlists, domain patterns), replaced by configuration reloads between registrations, x covert strings from a grammar of textual address forms x scripted resolver answers that change between lookups; every registration goes through the real ingest pipeline and is followed by a genuine connection through the real station; refused sessions retry and admitted sessions re-register later with another covert string; an independent net/netip evaluator judges each string that reaches the dial seam (literal, non-empty host, permitted, not a blocked domain, resolved exactly once at admission, dialled = checked, permitted well-formed literal accepted unchanged)",
+   text="generated policies (blocklists, allowlists, domain patterns), replaced by configuration reloads between registrations, x covert strings from a grammar of textual address forms x scripted resolver answers that change between lookups; every registration goes through the real ingest pipeline and is followed by a genuine connection through the real station; refused sessions retry and admitted sessions re-register later with another covert string; an independent net/netip evaluator judges each string that reaches the dial seam (literal, non-empty host, permitted, not a blocked domain, resolved exactly once at admission, dialled = checked, permitted well-formed literal accepted unchanged); registrations of a connecting transport (the station dials the covert by itself once its Connect succeeded); blocklists with nested, overlapping and duplicate entries",
    note="trusted: the independent evaluator; literals and the empty host are resolved by the real net.ResolveIPAddr (no DNS), names by the scripted resolver; the textual address space is sampled, not enumerated; policy as of admission time",
    tech=TECH + " (scripted faulty resolver as third party, admission->dial history through the real station, independent oracle at the dial seam)"),
  "C07": dict(cat="exploration", ref="5 C07",
@@ -31,11 +31,11 @@ CHECKS = {
    note="trusted: the admission model (from the property text), recorder stubs for liveness / peer API / detector; messages whose completeness the property leaves open are not generated; repeats of rejected messages are don't-cares",
    tech=TECH + " (decision table through the simulated environment: liveness verdicts, peer delivery, duplicates; executable model as oracle)"),
  "C08": dict(cat="exploration", ref="5 C08",
-   text="all histories up to length 3 (thorough 6, bounded per root) over a 12-operation alphabet are enumerated and long random histories sampled against the real registry under the simulated clock, compared after every step with an expiry reference model; two operations are a sweep raced by a connection handler (lookup, then activation) and a sweep raced by a re-registration, each as two tasks whose interleaving at the registry's lock operations the tape decides (systematic part: at most 2 preemptions per history)",
+   text="all histories up to length 3 (thorough 6, bounded per root) over a 12-operation alphabet are enumerated and long random histories sampled against the real registry under the simulated clock, compared after every step with an expiry reference model; two operations are a sweep raced by a connection handler (lookup, then activation) and a sweep raced by a re-registration, each as two tasks whose interleaving at the registry's lock operations the tape decides (systematic part: at most 2 preemptions per history); additional population (real main() of cmd/application as a task of the simulation, DESIGN 9.2): registrations, connections and idle periods of up to 7 h 15 min against the running station, whose own 3-minute sweeper goroutine is the only thing that expires anything; a registration 65 min past its lifetime must be gone, a younger one must still be there",
    note="trusted: synctest fake clock; the reference model (30 lines) written from the property text; ages within 1 ms of a threshold are don't-cares; for a registration that is about to expire while a connection arrives either outcome of the race is accepted (removed entirely, or kept as used)",
    tech=TECH + " (simulated clock, history enumeration + seeded search, reference model)"),
  "C14": dict(cat="exploration", ref="5 C14",
-   text="purity under schedules: 2-32 concurrent Select / SelectPhantom calls on one shared selector with every math/rand global call and lock as a scheduling point; each concurrent result must equal the same call executed alone before and after, and every returned value is read again after the later selections (a result must not change after it was returned); all schedules of 2 tasks (bounded preemptions for 3-4 tasks) are enumerated for 12 small scenarios, larger ones sampled; containment (family, inside a configured subnet of the generation, port flag) is asserted on every result over generated configurations incl. /32, /128, leading-zero networks, overlaps, zero weights, and an offset sweep of small subnets",
+   text="purity under schedules: 2-32 concurrent Select / SelectPhantom calls on one shared selector with every math/rand global call and lock as a scheduling point; each concurrent result must equal the same call executed alone before and after, and every returned value is read again after the later selections (a result must not change after it was returned); all schedules of 2 tasks (bounded preemptions for 3-4 tasks) are enumerated for 12 small scenarios, larger ones sampled; containment (family, inside a configured subnet of the generation, port flag) is asserted on every result over generated configurations incl. /32, /128, leading-zero networks, overlaps, zero weights, and an offset sweep of small subnets; a generation replaced / removed through the selector's own API after it has served selections (results must follow the configuration in force and equal those of a selector built from scratch); in half of the random runs the concurrent phase runs on a selector that has never been used",
    note="containment is input sampling and labelled so; the draw inside mroth/weightedrand's Chooser.Pick is not a yield point (third-party module), so a wrong group pick under interleaving is under-approximated; an IPv4 network written ::ffff:a.b.c.d/(96+n) is read as the IPv4 network a.b.c.d/n",
    tech=TECH + " (lock-level / rand-level cooperative scheduler, schedule enumeration + seeded search, serial-result oracle)"),
  "C16": dict(cat="exploration", ref="5 C16",
@@ -51,27 +51,27 @@ CHECKS = {
    note="trusted: measurement-history and recency models; golang-lru is not instrumented (its eviction callback runs after the library releases its own lock at the pinned version - checked at start-up, with a suppress path otherwise); an age of exactly the lifetime is judged (must be measured again), ages strictly between the lifetime and lifetime + 1 ms are don't-cares; cache hits are never demanded; an auxiliary free-running stress run under the race detector (capacity oracle at quiescent ends, statistical) covers switches inside critical sections, which the lock-level scheduler does not produce",
    tech=TECH + " (simulated clock, history enumeration, lock-level scheduler with bounded-preemption enumeration, reference models)"),
  "C19": dict(cat="exploration", ref="5 C19",
-   text="generated TOML configurations (every optional key set / unset / zero / malformed, list entries incl. malformed CIDRs and regular expressions, the shipped app_config.toml verbatim) and subnet files through the real ParseConfig / NewRegistrationManager / liveness New; for accepted ones: three epochs of every stats module's PrintAndReset with and without traffic, a sweep, and reload sequences of length <= 4 mixing valid, malformed and unreadable files; oracles: no panic, every list entry enforced (dropped entries detected by probing the intended range), reload differential against a fresh manager (failed part unchanged, successful part replaced); single reloads and one-key alternatives on the shipped config are enumerated; the scenario runs as one scheduler task (leaked locks are deadlock verdicts), station goroutine panics are verdicts, client library versions vary in traffic, the GeoIP database must be usable after every reload; a quarter of the registrations is still in flight in the ingest workers while the statistics printers run (lock operations of both are scheduling points); list pools contain bare IPv4 and IPv6 addresses",
-   note="the SIGHUP glue of cmd/application/main.go is re-implemented in 7 harness lines; connManager's stats module and GeoIP databases are not exercised; a panic or exit during the INITIAL load counts as a failed load",
+   text="generated TOML configurations (every optional key set / unset / zero / malformed, list entries incl. malformed CIDRs and regular expressions, the shipped app_config.toml verbatim) and subnet files through the real ParseConfig / NewRegistrationManager / liveness New; for accepted ones: three epochs of every stats module's PrintAndReset with and without traffic, a sweep, and reload sequences of length <= 4 mixing valid, malformed and unreadable files; oracles: no panic, every list entry enforced (dropped entries detected by probing the intended range), reload differential against a fresh manager (failed part unchanged, successful part replaced); single reloads and one-key alternatives on the shipped config are enumerated; the scenario runs as one scheduler task (leaked locks are deadlock verdicts), station goroutine panics are verdicts, client library versions vary in traffic, the GeoIP database must be usable after every reload; a quarter of the registrations is still in flight in the ingest workers while the statistics printers run (lock operations of both are scheduling points); list pools contain bare IPv4 and IPv6 addresses; additional population (real main() of cmd/application as a task of the simulation, DESIGN 9.2): SIGHUP against the running main() with good configurations, broken TOML, a missing / empty file, an unparseable list entry and a broken phantom-subnet file; the covert policy in force afterwards (judged by admitting probe registrations) must be that of the last configuration that loaded, statistics epochs with the modules main() registered, no panic anywhere; domain patterns with case-sensitive class escapes",
+   note="in the main population the SIGHUP glue of cmd/application/main.go is the real one (the large generated-configuration population re-implements it in 7 harness lines); connManager's stats module is exercised only in the main population, and GeoIP databases are not exercised; a panic or exit during the INITIAL load counts as a failed load",
    tech=TECH + " (reload / file-fault sequences under the simulated clock, differential probes, panic monitor)"),
  "C20": dict(cat="fault_enumeration", ref="5 C20", engine="ptracefi",
    text="a real child process built from the current pkg/client/assets performs seeded store sequences under ptrace; for a fixed set of sequences every file-system syscall stop point is enumerated with kill-at-entry, kill-at-exit, torn write + kill, each errno and short write; the directory is then loaded by a fresh process and compared byte-for-byte with the old/new configuration, and the in-memory rollback is checked; store children of sequences with an odd parameter seed initialise the singleton from another directory and then switch to the directory under test",
    note="trusted: the ptrace tracer's syscall classification (x86-64), determinism of the child's file-system syscall sequence (verified per sequence by three reference runs); power loss / page-cache durability is not modelled (the property speaks of process crash, kill or write failure)",
    tech=TECH + " (crash-point and syscall-error enumeration on a real process via ptrace)"),
  "C09": dict(cat="exploration", ref="5 C09",
-   text="lock-level scheduler over pkg/station/lib: every lock operation, liveness probe and resolver lookup is a scheduling point; every schedule with <= 2 preemptions is enumerated for three small scenarios (duplicate ingest, same identifier with acceptable + forbidden covert, ingest vs sweep vs lookup) and seven scenarios (plus overload, shutdown with idle / busy input, reload) are sampled; oracles: one New per lifetime, visibility only after the registration's own admission, no lost regCount update, map bijection, no panic, deadlock from the wait-for graph, dropped == offered - accepted with a non-blocking distributor, bounded shutdown, porcupine linearizability of ingest histories; the data-race clause is covered by an auxiliary -race run (400 iterations in the quick tier, 3200 in the thorough tier); scheduling points also right after every release; stop requests during pool start-up and with registrations queued behind a large pool; panics of pipeline goroutines are verdicts; auxiliary race run over roomy and four-address phantom subnets, half of its iterations with microsecond lifetimes so that the sweeper expires registrations beside the workers; an Update published before the New of the same registration is a lost update; reloads that switch between blocklist and allowlist with a covert both policies refuse (must not be admitted under any interleaving)",
+   text="lock-level scheduler over pkg/station/lib: every lock operation, liveness probe and resolver lookup is a scheduling point; every schedule with <= 2 preemptions is enumerated for three small scenarios (duplicate ingest, same identifier with acceptable + forbidden covert, ingest vs sweep vs lookup) and seven scenarios (plus overload, shutdown with idle / busy input, reload) are sampled; oracles: one New per lifetime, visibility only after the registration's own admission, no lost regCount update, map bijection, no panic, deadlock from the wait-for graph, dropped == offered - accepted with a non-blocking distributor, bounded shutdown, porcupine linearizability of ingest histories; the data-race clause is covered by an auxiliary -race run (400 iterations in the quick tier, 3200 in the thorough tier); scheduling points also right after every release; stop requests during pool start-up and with registrations queued behind a large pool; panics of pipeline goroutines are verdicts; auxiliary race run over roomy and four-address phantom subnets, half of its iterations with microsecond lifetimes so that the sweeper expires registrations beside the workers; an Update published before the New of the same registration is a lost update; reloads that switch between blocklist and allowlist with a covert both policies refuse (must not be admitted under any interleaving); additional population (real main() of cmd/application as a task of the simulation, DESIGN 9.2): SIGINT / SIGTERM with a registration being probed and with registrations that keep arriving; main() must return within 120 simulated seconds, nothing may panic; every delivery carries its own time stamp",
    note="code between two lock operations runs atomically; third-party code is not instrumented; the auxiliary race run is statistical and outside the deterministic core (reported separately in the evidence); no known finding left (the unsynchronised OnReload was repaired in c8c3e7f)",
    tech=TECH + " (lock-level cooperative scheduler with emulated RWMutex, bounded-preemption enumeration + seeded search, porcupine; auxiliary race-detector stress)"),
  "C10": dict(cat="exploration", ref="5 C10",
-   text="admitted registrations over every transport, both families, registrant forms (IPv4, 16-byte v4-mapped, IPv6, absent) and registrar overrides are driven through the real station; the real sendToDetector / clearDetector publish through a real go-redis client over a simulated connection into a RESP stub feeding a Go port of the detector's acceptance rules and session table; every payload must be accepted, describe its registration, request 10 min / 6 h; what the station would still match must be live in the model at every checked instant; Cleanup must empty the table; repeats of registrations, a UDP stand-in transport with old client library versions, a stop request while a worker is probing (main()-like stop sequence), a post-sweep clause (what the station still tracks must be live in the detector), a station crash is a verdict; activation with a stale object after expiry and sweep must publish nothing; in half of the runs the station builds its go-redis client itself (real initRedisClient through the redisnew seam), with redis-server refusing the very first dial in half of those",
+   text="admitted registrations over every transport, both families, registrant forms (IPv4, 16-byte v4-mapped, IPv6, absent) and registrar overrides are driven through the real station; the real sendToDetector / clearDetector publish through a real go-redis client over a simulated connection into a RESP stub feeding a Go port of the detector's acceptance rules and session table; every payload must be accepted, describe its registration, request 10 min / 6 h; what the station would still match must be live in the model at every checked instant; Cleanup must empty the table; repeats of registrations, a UDP stand-in transport with old client library versions, a stop request while a worker is probing (main()-like stop sequence), a post-sweep clause (what the station still tracks must be live in the detector), a station crash is a verdict; activation with a stale object after expiry and sweep must publish nothing; in half of the runs the station builds its go-redis client itself (real initRedisClient through the redisnew seam), with redis-server refusing the very first dial in half of those; additional population (real main() of cmd/application as a task of the simulation, DESIGN 9.2): the messages the running station publishes are judged by the detector model; when main() has returned after a stop signal the last message must be a Clear and the model's table empty",
    note="trusted: the < 100-line Go port of src/sessions.rs (the Rust detector cannot be built here); no loss on the detector channel; expired-not-yet-swept registrations are don't-cares; message contents are sampled",
    tech=TECH + " (real publisher + redis client over simulated transport, executable detector model, simulated clock for lifetimes and restart)"),
  "C12": dict(cat="exploration", ref="5 C12",
-   text="generated bidirectional requests (all transports / params / families / library versions, forged response and signature fields, overrides allowed or disabled) x registrar configurations (authenticated or not, parameter override sets, weighted subnet overrides, exclusions, percentages) x subnet files through the real RegProcessor; the forwarded bytes reach 1-2 real station parsers through a channel that duplicates, delays and reorders; three views (client, forwarded, station) must agree; a statistical sub-scenario checks that every non-zero-weight override subnet is used (miss probability < 1e-12); the unidirectional entry point with forged response fields and claimed sources; the scenario runs as one scheduler task (a leaked lock is a deadlock verdict)",
+   text="generated bidirectional requests (all transports / params / families / library versions, forged response and signature fields, overrides allowed or disabled) x registrar configurations (authenticated or not, parameter override sets, weighted subnet overrides, exclusions, percentages) x subnet files through the real RegProcessor; the forwarded bytes reach 1-2 real station parsers through a channel that duplicates, delays and reorders; three views (client, forwarded, station) must agree; a statistical sub-scenario checks that every non-zero-weight override subnet is used (miss probability < 1e-12); the unidirectional entry point with forged response fields and claimed sources; the scenario runs as one scheduler task (a leaked lock is a deadlock verdict); a concurrent sub-population (2-4 requests as tasks, every lock operation of the registrar a scheduling point): one forwarded message per answered request, carrying that request's secret and the response that client received",
    note="trusted: the ~40-line restatement of how the client library applies a RegistrationResponse around the real ClientTransports; the request/configuration space is sampled; the station never verifies the response signature itself (reported, not judged: no sentence of the property licenses an oracle for it)",
    tech=TECH + " (three-party agreement registrar -> faulty channel -> stations, seeded search, statistical clause with stated miss probability)"),
  "C13": dict(cat="exploration", ref="5 C13",
-   text="all schedules with at most 2 preemptions at lock operations (and at the entry of the selector's Select) for 13 small request/reload scenarios (valid, missing and malformed subnet files; servable and unservable requests) are enumerated, larger ones sampled, on the real RegProcessor with emulated RWMutex semantics (writer preference); deadlock is decided from the wait-for graph, old-or-new-in-full from the returned addresses; afterwards a further request and reload must be served, a generation that only the old file has must be gone, and a panic in a request or reload task is a violation",
+   text="all schedules with at most 2 preemptions at lock operations (and at the entry of the selector's Select) for 13 small request/reload scenarios (valid, missing and malformed subnet files; servable and unservable requests) are enumerated, larger ones sampled, on the real RegProcessor with emulated RWMutex semantics (writer preference); deadlock is decided from the wait-for graph, old-or-new-in-full from the returned addresses; afterwards a further request and reload must be served, a generation that only the old file has must be gone, and a panic in a request or reload task is a violation; a generation whose IPv6 subnets exist only in the second file (a dual-stack request of it either fails or is served from the new set in full)",
    note="trusted: the lock emulation's fidelity to sync.RWMutex; code between two lock operations runs atomically (unlocked shared accesses are not interleaved)",
    tech=TECH + " (lock-level cooperative scheduler, bounded-preemption schedule enumeration + seeded search)"),
 }
@@ -116,7 +116,7 @@ def main():
         "setup_cmd": "./bin/setup",
         "hooks": {
             "guard": "verif",
-            "enable": "no source change in /repo: bin/check generates a build-time overlay (go test -overlay, -tags verif) from the current working tree: cmd/seamgen rewrites lock / go / net / math-rand / select / selected map-range / *net.TCPConn / redis.NewClient call sites of the instrumented packages to verif/sim/hook (or to a variable of the package's harness export file) and maps /verif/harness/** test files into the packages",
+            "enable": "no source change in /repo: bin/check generates a build-time overlay (go test -overlay, -tags verif) from the current working tree: cmd/seamgen rewrites lock / go / net / math-rand / select / selected map-range / *net.TCPConn / redis.NewClient call sites and (rule wrap=) the four calls of cmd/application's main() that need the operating system (dtls.NewTransport, ZMQIngester.RunZMQ, connManager.acceptConnections, signal.Notify) of the instrumented packages to verif/sim/hook (or to a variable of the package's harness export file) and maps /verif/harness/** test files into the packages",
             "baseline_off_cmd": "for m in $(cat /w/out/gomods.txt); do MF=$(cd /repo/$m && . /w/out/goenv.sh && gomodflag); (cd /repo/$m && go test $MF -json -vet=off -count=1 -timeout 25m ./...); done",
             "source_commits": [],
             "add_only": True,
